@@ -23,7 +23,7 @@ bounded C03 5 6 sync2.Map sequential contract vs builtin map, all call sequences
 // concurrent wrappers rely on: a key living only in the dirty map is loaded / loaded-or-stored / deleted / stored /
 // ranged over by several goroutines while others force promotions; every outcome is checked against an atomic map.
 bounded C03 40000 300000 sync2.Map atomic contract under concurrent use (operands of the set algebra are only read): rounds of 6 scenario families with forced promotions, plus three dedicated races (dirty-map rebuild, expunged keys, delete against stores)
-bounded C03 7 12 sync2.Set.String against the membership model: every set of up to bound members (fresh, promoted, after removals)
+bounded C03 7 12 sync2.Set.String against the membership model: every set of up to bound members (fresh, promoted, after removals, promoted plus a new member)
 bounded C05 40000 300000 sync2.Map atomic contract under concurrent use: rounds of 6 scenario families with forced promotions, plus three dedicated races (dirty-map rebuild, expunged keys, delete against stores)
 bounded C09 40000 300000 sync2.Map atomic contract under concurrent use: rounds of 6 scenario families with forced promotions, plus three dedicated races (dirty-map rebuild, expunged keys, delete against stores)
 
